@@ -17,6 +17,7 @@ mod c16;
 mod c19;
 mod c21;
 mod c22;
+mod c24;
 mod fdgen;
 mod search;
 mod prog;
@@ -62,6 +63,7 @@ fn main() {
                 "C19" => c19::run(seed, thorough, &mut out),
                 "C21" => c21::run(seed, thorough, &mut out),
                 "C22" => c22::run(seed, thorough, &mut out),
+                "C24" => c24::run(seed, thorough, &mut out),
                 "C17" => c16::run(seed, thorough, 17, &mut out),
                 _ => {
                     eprintln!("unknown property {}", prop);
@@ -97,6 +99,7 @@ fn main() {
                     "C19" => c19::replay(line, &mut out),
                     "C21" => c21::replay(line, &mut out),
                     "C22" => c22::replay(line, &mut out),
+                    "C24" => c24::replay(line, &mut out),
                     "C17" => c16::replay(line, 17, &mut out),
                     _ => {
                         eprintln!("unknown property {}", prop);
